@@ -162,6 +162,13 @@ class Driver:
         RE.state_hook = self._state_hook
         if case.get("sim", {}).get("trace_commands", True):
             self._wrap_commands()
+        _orig_request_suspend = RE.request_suspend
+
+        def traced_request_suspend(fut, **kw):
+            sim.record("sus_request", justification=kw.get("justification"), state=str(RE.state))
+            return _orig_request_suspend(fut, **kw)
+
+        RE.request_suspend = traced_request_suspend
         self._recorder_token = RE.subscribe(self._recorder)
         self.ctx.suspenders = {}
         for sid, spec in sorted(case.get("suspenders", {}).items()):
@@ -226,6 +233,7 @@ class Driver:
             run=msg.run,
             state=str(RE.state),
             n=self.call_msgs,
+            wall=self.sim.wall_time(),
             dbg_cache=None if cache is None else len(cache),
             dbg_rewindable=RE._rewindable_flag,
         )
@@ -254,7 +262,7 @@ class Driver:
             elif "msg" in at:
                 due = inj.get("_armed") is not None and sim.nsteps >= inj["_armed"]
             elif "time" in at:
-                due = sim.now - self.call_start_time >= at["time"]
+                due = sim.now - self.call_start_time >= at["time"] - 1e-9
             if due:
                 inj["_fired"] = True
                 sim.run_external(lambda: self._do_action(inj))
@@ -339,6 +347,11 @@ class Driver:
         self.call_msgs = 0
         self.call_index += 1
         self.in_call = True
+        # time-anchored injections are external timed events: the clock must be able to jump to them
+        markers = []
+        for inj in self.pending:
+            if "time" in inj["at"]:
+                markers.append(sim.call_ext(inj["at"]["time"], lambda: None, "inject-time"))
         sim.record("call_begin", api=api, idx=self.call_index, state=str(RE.state))
         outcome, exc_type, text, value = "return", None, "", None
         exc_obj = None
@@ -354,6 +367,8 @@ class Driver:
             exc_obj = e
         finally:
             self.in_call = False
+            for mk in markers:
+                mk.cancel()
         unfired = [i.get("id") for i in self.pending if not i.get("_fired")]
         self.pending = []
         cause = None
@@ -419,7 +434,12 @@ class Driver:
                 RE.install_suspender(self.ctx.suspenders[step["sus"]])
             elif do == "remove_suspender":
                 self.sim.record("user", do="remove_suspender", sus=step["sus"])
-                RE.remove_suspender(self.ctx.suspenders[step["sus"]])
+                try:
+                    RE.remove_suspender(self.ctx.suspenders[step["sus"]])
+                except SimAbort:
+                    raise
+                except Exception as e:
+                    self.sim.record("user_error", do="remove_suspender", exc=type(e).__name__, text=str(e)[:200])
             elif do == "put":
                 self.sim.record("user", do="put", signal=step["signal"], value=step["value"])
                 self.world[step["signal"]].put(step["value"])
@@ -515,7 +535,7 @@ def run_case(case, keep_objects=True) -> Result:
             sim.record("end", state=str(drv.RE.state))
         except SimAbort as e:
             res.aborted = (type(e).__name__, str(e))
-            sim.record("sim_abort", kind=type(e).__name__, text=str(e))
+            sim.record("sim_abort", abort=type(e).__name__, text=str(e))
     res.history = sim.history
     return res
 
